@@ -20,6 +20,7 @@ def runCase (kind : String) (fields : List String) : List String :=
   | "progx" => Driver.progx fields
   | "evalfile" => Driver.evalfile fields
   | "imports" => Driver.imports fields
+  | "libs" => Driver.libs fields
   | "gen-selfcheck" => Driver.genSelfcheck fields
   | "gen-text" => Driver.genText fields
   | "gen-data" => Driver.genData fields
